@@ -2131,15 +2131,20 @@ Proof.
 Qed.
 
 (* the literal statement: the variable a renamed to the fresh name hernoemd_a *)
+Example ex_fresh_is_subst :
+  rename_block (subst_name (str_cps "a") (str_cps "hernoemd_a")) (ex_ast (ex_src "a")) = ex_ast (ex_src "hernoemd_a").
+Proof. vm_compute. reflexivity. Qed.
+Example ex_fresh_notin : forallb (fun y => negb (text_eqb y (str_cps "hernoemd_a"))) (names_block (ex_ast (ex_src "a"))) = true.
+Proof. vm_compute. reflexivity. Qed.
 Example ex_fresh :
-  let p := ex_ast (ex_src "a") in
-  rename_block (subst_name (str_cps "a") (str_cps "hernoemd_a")) p = ex_ast (ex_src "hernoemd_a") /\
-  compile (ex_ast (ex_src "hernoemd_a")) = compile p.
+  compile (rename_block (subst_name (str_cps "a") (str_cps "hernoemd_a")) (ex_ast (ex_src "a"))) = compile (ex_ast (ex_src "a")).
 Proof.
-  cbv zeta. assert (E : rename_block (subst_name (str_cps "a") (str_cps "hernoemd_a")) (ex_ast (ex_src "a")) =
-                        ex_ast (ex_src "hernoemd_a")) by (vm_compute; reflexivity).
-  split; [exact E|]. rewrite <- E. apply compile_rename_fresh; try discriminate; try reflexivity.
-  apply notin_by_eqb. vm_compute. reflexivity.
+  apply compile_rename_fresh.
+  - discriminate.
+  - discriminate.
+  - reflexivity.
+  - reflexivity.
+  - apply notin_by_eqb. exact ex_fresh_notin.
 Qed.
 
 (* WHY r must not map a variable onto a builtin's name: the call head then resolves to the builtin *)
